@@ -215,6 +215,17 @@ class Driver:
         return res
 
 
+def value_proportional_recursion(stderr):
+    """stack overflow whose symbolised frames are the direct self-recursion of lowergamma / uppergamma"""
+    if "stack-overflow" not in stderr:
+        return False
+    frames = [l for l in stderr.splitlines() if l.lstrip().startswith("#") and " in " in l]
+    if len(frames) < 20:
+        return False
+    rec = [l for l in frames if " in SymEngine::lowergamma(" in l or " in SymEngine::uppergamma(" in l]
+    return len(rec) >= 0.8 * len(frames)
+
+
 def crash_signature(stderr):
     """One-line description of a sanitizer / abort report."""
     lines = stderr.splitlines()
@@ -372,6 +383,11 @@ class Check:
         except DriverTimeout:
             self.skip("timeout")
         except DriverCrash as e:
+            if value_proportional_recursion(e.stderr):
+                # lowergamma(n, x) / uppergamma(n, x) recurse n times for an integer or half-integer n: exhausting the
+                # stack with n in the thousands is resource exhaustion like 2**10**12 (DESIGN 3.4), not a verdict
+                self.skip("resource:gamma_recursion_depth")
+                return
             sig = crash_signature(e.stderr)
             v = Violation("driver crashed: " + sig, {"stderr": e.stderr[-3000:], "program": e.program[:4000]})
             self._offer(case, v)
